@@ -76,21 +76,7 @@ def run(rep: Report, tier: str) -> None:
     c06.over_clause_rules(P, rep, "R15.3")
     # ---- R15.4: additive aggregates accumulate exactly (no cast to a binary floating type inside SUM/AVG) ----
     rep.rule("R15.4", "SUM/AVG templates do not cast their argument to DOUBLE/FLOAT/REAL (float addition is not associative: per-thread partial sums make the result depend on the schedule)")
-    import re as _re
-    from sa import registryx as _rx
-    n154 = 0
-    for e_ in _rx.extract(P):
-        for tpl in e_.templates.values():
-            m_ = _re.search(r"\b(SUM|AVG)\s*\((.*)\)", tpl, _re.I)
-            if not m_:
-                continue
-            n154 += 1
-            rep.instance("R15.4", f"template/{e_.token}", nontrivial=True, sample=tpl)
-            if _re.search(r"\bAS\s+(DOUBLE|FLOAT|REAL|FLOAT4|FLOAT8)\b|::\s*(DOUBLE|FLOAT|REAL)\b", m_.group(2), _re.I):
-                rep.add(Finding("R15.4", f"R15.4/template/{e_.token}", "src/vtlengine/duckdb_transpiler/Transpiler/operators.py", e_.line, f"registry[{e_.token}]",
-                                f"the SQL template of {e_.token} is `{tpl}`: the argument is cast to a binary floating type before it is accumulated, so the partial sums of the worker "
-                                f"threads are rounded differently depending on how the rows are distributed; the same input gives different results under another thread count or memory limit"))
-    rep.floor("R15.4 additive aggregate templates", n154, 2)
+    exact_accumulation(P, rep, "R15.4")
     rep.analysed = dict(stats, premise=prem)
     # ---- R15.5 a VTL range window is emitted as RANGE: rows that tie on the ORDER BY key are peers, not a sequence in physical order ----
     rep.rule("R15.5", "window frames: `range` -> RANGE and `data points` -> ROWS with the same offsets, for every frame shape (ties under ROWS follow the physical / thread-dependent order)")
@@ -121,3 +107,24 @@ def run(rep: Report, tier: str) -> None:
                                 "the SQL generated for a script then depends on the scripts transpiled before it")
     rep.assumptions = ["DuckDB evaluates window functions / aggregates with ORDER BY deterministically when the order is total",
                        "preserve_insertion_order=false: no operator output order may be relied upon (premise read from the source)"]
+
+
+def exact_accumulation(P: Program, rep: Report, rule: str) -> None:
+    """SUM / AVG templates of the operator registry accumulate the operand in its exact (DECIMAL / BIGINT) type.  Shared with C33: float
+    addition is not associative, so over DOUBLE the result also depends on the physical order of the rows."""
+    import re as _re
+    from sa import registryx as _rx
+    n154 = 0
+    for e_ in _rx.extract(P):
+        for tpl in e_.templates.values():
+            m_ = _re.search(r"\b(SUM|AVG)\s*\((.*)\)", tpl, _re.I)
+            if not m_:
+                continue
+            n154 += 1
+            rep.instance(rule, f"template/{e_.token}", nontrivial=True, sample=tpl)
+            if _re.search(r"\bAS\s+(DOUBLE|FLOAT|REAL|FLOAT4|FLOAT8)\b|::\s*(DOUBLE|FLOAT|REAL)\b", m_.group(2), _re.I):
+                rep.add(Finding(rule, f"{rule}/template/{e_.token}", "src/vtlengine/duckdb_transpiler/Transpiler/operators.py", e_.line, f"registry[{e_.token}]",
+                                f"the SQL template of {e_.token} is `{tpl}`: the argument is cast to a binary floating type before it is accumulated, so the partial sums are rounded "
+                                f"differently depending on the order and distribution of the rows; the same datapoints in another physical order, or under another thread count or memory "
+                                f"limit, give a different result"))
+    rep.floor(f"{rule} additive aggregate templates", n154, 2)
